@@ -212,6 +212,11 @@ func genLife(seed int64, allow map[string]bool) *Scenario {
 	for h, hs := 0, 2+r.Intn(4); h < hs && !ended; h++ {
 		hp := b.plan()
 		phases := []string{"prefinish", "ready1", "ready2", "blinds", "turn0", "turn1", "turn3", "settled", "g:continue.reset", "g:continue.reset"}
+		if r.Intn(6) == 0 {
+			// the open trigger completes while the table is still publishing the last closed round of the running hand
+			// (the hand wrapper already holds the closed hand)
+			hp.Inj = append(hp.Inj, Inj{At: "g:ugs.enter@closing", Ops: []Op{{Op: "setup", IDs: []string{"*"}}, {Op: "finishall"}, {Op: "sleep", Amt: 30}}})
+		}
 		for i, kk := 0, r.Intn(4); i < kk; i++ {
 			at := phases[r.Intn(len(phases))]
 			var ops []Op
